@@ -57,6 +57,13 @@ pub enum Kind {
     MapSpanOfCtxSlice,
     MapSpanOfCtxIo,
     CtxOfMappedStream,
+    /// `Input::map` over inputs that hand out tokens BY VALUE: the mapping function computes the
+    /// (token, span) pair from the underlying token, which encodes (position, symbol) — a byte
+    /// `k * 8 + sym` for readers and `Bytes` (<= 32 tokens over <= 8 symbols), a private-use
+    /// character `U+E000 + k * 32 + sym` for `&str`
+    MappedIo,
+    MappedBytes,
+    MappedStr,
 }
 
 pub const U8_KINDS: &[Kind] = &[
@@ -79,17 +86,20 @@ pub const U8_KINDS: &[Kind] = &[
     Kind::MapSpanOfCtxSlice,
     Kind::MapSpanOfCtxIo,
     Kind::CtxOfMappedStream,
+    Kind::MappedIo,
+    Kind::MappedBytes,
+    Kind::MappedStr,
 ];
 pub const CHAR_KINDS: &[Kind] = &[Kind::Str, Kind::CharStream, Kind::CtxStr, Kind::MapSpanStr];
 /// Kinds exercised on the long (batch / buffer boundary) inputs.
-pub const LONG_KINDS: &[Kind] = &[Kind::Stream, Kind::StreamBoxed, Kind::StreamExact, Kind::Io, Kind::MappedStream, Kind::CtxStream, Kind::MapSpanIo, Kind::Bytes, Kind::CtxOfMapSpanStream, Kind::MapSpanOfCtxIo];
+pub const LONG_KINDS: &[Kind] = &[Kind::Stream, Kind::StreamBoxed, Kind::StreamExact, Kind::Io, Kind::MappedStream, Kind::CtxStream, Kind::MapSpanIo, Kind::Bytes, Kind::CtxOfMapSpanStream, Kind::MapSpanOfCtxIo, Kind::MappedStr];
 
 impl Kind {
     pub fn is_mapped(self) -> bool {
-        matches!(self, Kind::MappedSlice | Kind::MappedStream | Kind::IterInput | Kind::CtxOfMappedStream)
+        matches!(self, Kind::MappedSlice | Kind::MappedStream | Kind::IterInput | Kind::CtxOfMappedStream | Kind::MappedIo | Kind::MappedBytes | Kind::MappedStr)
     }
     pub fn uses_reader(self) -> bool {
-        matches!(self, Kind::Io | Kind::CtxIo | Kind::MapSpanIo | Kind::MapSpanOfCtxIo)
+        matches!(self, Kind::Io | Kind::CtxIo | Kind::MapSpanIo | Kind::MapSpanOfCtxIo | Kind::MappedIo)
     }
     pub fn uses_iter(self) -> bool {
         matches!(self, Kind::Stream | Kind::StreamBoxed | Kind::StreamExact | Kind::MappedStream | Kind::CtxStream | Kind::MapSpanStream | Kind::CharStream | Kind::IterInput | Kind::CtxOfMapSpanStream | Kind::CtxOfMappedStream)
@@ -128,6 +138,12 @@ impl Kind {
         } else {
             Kind::CharSlice
         }
+    }
+    pub fn byte_encodable(syms: &[u8]) -> bool {
+        syms.len() <= 32 && syms.iter().all(|s| *s < 8)
+    }
+    pub fn char_encodable(syms: &[u8]) -> bool {
+        syms.len() < 32_000 && syms.iter().all(|s| *s < 32)
     }
     pub fn is_char(self) -> bool {
         matches!(self, Kind::CharSlice | Kind::Str | Kind::CharStream | Kind::CtxStr | Kind::MapSpanStr)
@@ -301,6 +317,31 @@ pub fn run_kind(g: &G, syms: &[u8], kind: Kind, mode: PMode, env: &Env, budget: 
                 rlog = Some(log);
                 value!(chumsky::input::MappedSpan<CS, chumsky::input::WithContext<CS, IoInput<SimReader>>, _>, IoInput::new(rd).with_context::<CS>(CTX).map_span(ms2))
             }
+            Kind::MappedIo | Kind::MappedBytes => {
+                // underlying byte = position * 8 + symbol
+                let enc: Vec<u8> = syms.iter().enumerate().map(|(k, s)| (k * 8) as u8 + *s).collect();
+                assert!(Kind::byte_encodable(syms), "harness: MappedIo/MappedBytes need <= 32 tokens over <= 8 symbols");
+                let spans: Vec<CS> = pairs.iter().map(|p| p.1).collect();
+                let f = move |b: u8| (u8::from_sym(b % 8), spans[(b / 8) as usize]);
+                if kind == Kind::MappedIo {
+                    let (rd, log) = mk_reader(&Rc::new(enc), env);
+                    rlog = Some(log);
+                    value!(chumsky::input::MappedInput<u8, CS, IoInput<SimReader>, _>, IoInput::new(rd).map(eoi, f))
+                } else {
+                    value!(chumsky::input::MappedInput<u8, CS, bytes::Bytes, _>, bytes::Bytes::from(enc).map(eoi, f))
+                }
+            }
+            Kind::MappedStr => {
+                // underlying character = U+E000 + position * 32 + symbol (1..4-byte private-use characters)
+                assert!(Kind::char_encodable(syms), "harness: MappedStr needs < 32000 tokens over <= 32 symbols");
+                let text: String = syms.iter().enumerate().map(|(k, s)| char::from_u32(0xE000 + (k as u32) * 32 + *s as u32).unwrap()).collect();
+                let spans: Vec<CS> = pairs.iter().map(|p| p.1).collect();
+                let f = move |c: char| {
+                    let v = c as u32 - 0xE000;
+                    (u8::from_sym((v % 32) as u8), spans[(v / 32) as usize])
+                };
+                value!(chumsky::input::MappedInput<u8, CS, &str, _>, (&text[..]).map(eoi, f))
+            }
             Kind::CtxOfMappedStream => {
                 let (it, log) = SimIter::new(Rc::new(pairs.clone()), env.hint);
                 ilog = Some(log);
@@ -386,7 +427,7 @@ pub fn rebase(ref_kind: Kind, kind: Kind, syms: &[u8], env: &Env) -> Box<dyn Fn(
                 }
             })
         }
-        Kind::MappedSlice | Kind::MappedStream | Kind::IterInput => {
+        Kind::MappedSlice | Kind::MappedStream | Kind::IterInput | Kind::MappedIo | Kind::MappedBytes | Kind::MappedStr => {
             let m = env.mspans.clone();
             Box::new(move |s: Sp| {
                 if s.1 < s.2 && s.2 <= m.len() {
@@ -916,6 +957,12 @@ impl SrcSim {
                 if kind == Kind::IterInput && needs_value {
                     continue;
                 }
+                if matches!(kind, Kind::MappedIo | Kind::MappedBytes) && !Kind::byte_encodable(syms) {
+                    continue;
+                }
+                if kind == Kind::MappedStr && !Kind::char_encodable(syms) {
+                    continue;
+                }
                 if !need.satisfied_by(&kind.caps()) {
                     continue;
                 }
@@ -945,6 +992,15 @@ impl SrcSim {
                     }
                     if need.exact {
                         acc.inc("replica_runs.with_span_from");
+                    }
+                    if crate::gram::contains(g, &|x| matches!(x, G::ValApi(_))) {
+                        acc.inc("replica_runs.with_inputref_peek/skip/next(by value)");
+                    }
+                    if crate::gram::contains(g, &|x| matches!(x, G::CapApi(0, _))) {
+                        acc.inc("replica_runs.with_inputref_peek_ref/next_ref");
+                    }
+                    if crate::gram::contains(g, &|x| matches!(x, G::CapApi(1, _))) {
+                        acc.inc("replica_runs.with_inputref_slice/slice_since");
                     }
                     if need.strin {
                         acc.inc("replica_runs.with_text_parsers(StrInput)");
